@@ -312,6 +312,11 @@ class LazyNodes:
     def __len__(self):
         return len(self.raw)
 
+    def exc(self, nid):
+        """expected exception class of the edge into this node ('' = none), read off the raw label"""
+        m = re.search(r'res \|-> \[exc \|-> \\"(\w*)\\"', self.raw[nid])
+        return m.group(1) if m else self[nid]["last"]["res"]["exc"]
+
     def op(self, nid):
         m = re.search(r'last = \[[^\]]*?\bop \|-> \\"(\w+)\\"', self.raw[nid])
         return m.group(1) if m else self[nid]["last"]["op"]
